@@ -324,12 +324,26 @@ theorem solve_inv {S : Solver α} {st : Settings α} {r : SolveResult α} (h : S
   unfold Solver.solve at h
   obtain ⟨L, hL, h⟩ := bind_ok_inv h
   obtain ⟨p, hp, h⟩ := bind_ok_inv h
+  obtain ⟨dN, hdN, h⟩ := bind_ok_inv h
   cases h
   unfold finish at hp
   obtain ⟨u, hu, hp⟩ := bind_ok_inv hp
   cases hp
   obtain ⟨h1, h2, h3, h4, h5⟩ := Solver.unscale_postProcess_fields hu
   exact ⟨L, hL, rfl, rfl, h4, h5, h1, h2, h3⟩
+
+/-- the anatomy of a `solve()` that returned: the loop, `finish`, and the norm caches `Info.update`
+filled (`Solver.fillNorms` on the data, which nothing else in `solve()` writes) -/
+theorem solve_ok_inv {S : Solver α} {st : Settings α} {r : SolveResult α} (h : S.solve st = .ok r) :
+    ∃ L p d, S.st.runSolve st = .ok L ∧ finish st L S.solution = .ok p
+      ∧ Solver.fillNorms p.1.data = .ok d
+      ∧ r = { S := { st := { p.1 with data := d }, solution := p.2 }, traj := L.traj } := by
+  unfold Solver.solve at h
+  obtain ⟨L, hL, h⟩ := bind_ok_inv h
+  obtain ⟨p, hp, h⟩ := bind_ok_inv h
+  obtain ⟨dN, hdN, h⟩ := bind_ok_inv h
+  cases h
+  exact ⟨L, p, dN, hL, hp, hdN, rfl⟩
 
 /-- `DefaultSolver::new` allocates the solution with the user's dimensions -/
 theorem new_solution_sizes {P : Csc α} {q : Array α} {A : Csc α} {b : Array α} {cones : List (ConeT α)}
